@@ -6,7 +6,12 @@
 * `_STATE_ORDER` and the `DccState` enum values.
 * `DccAdaptiveParameters()` defaults, read as the shortest decimal that round-trips (`repr`), compared in Lean with
   Table 3 of TS 102 687.
-* `GateKeeper.GATE_OPEN_MIN_INTERVAL_S/…MAX…/_T_EPSILON` as the exact rationals of the Python floats.
+* `GateKeeper.GATE_OPEN_MIN_INTERVAL_S/…MAX…` as the exact rationals of the Python floats.
+* `gateEps`: the tolerance `is_open` actually subtracts from `t_go`, MEASURED on the class (smallest float at which a
+  closed gate reports open, found by bisection, for three schedules): 0 when the gate opens exactly at `t_go`
+  (repaired comparison), the exact rational of `_T_EPSILON` when the threshold is `fl(t_go - _T_EPSILON)` (C19-KF1), else
+  the measured difference (Props.C19.gate_eps_variant then fails).  Measured rather than read from the AST so that a
+  refactor of `is_open` that keeps the behaviour keeps the fact.
 """
 from __future__ import annotations
 
@@ -47,6 +52,44 @@ def _dec(x):
     return f"(({fr.numerator} : Rat) / {fr.denominator})"
 
 
+def _open_threshold(gk, lo, hi):
+    """smallest float t in (lo, hi] with gk.is_open(t) (is_open is monotone in t); lo closed, hi open"""
+    import math
+    if gk.is_open(lo) or not gk.is_open(hi):
+        raise ValueError("is_open is not closed/open at the probe ends")
+    while math.nextafter(lo, hi) < hi:
+        mid = lo + (hi - lo) / 2
+        if mid <= lo or mid >= hi:
+            mid = math.nextafter(lo, hi)
+        if gk.is_open(mid):
+            hi = mid
+        else:
+            lo = mid
+    return hi
+
+
+def measured_gate_eps(a):
+    """Fraction: tolerance subtracted from t_go by is_open (see module docstring)"""
+    g = a.GateKeeper
+    decl = getattr(g, "_T_EPSILON", None)
+    kinds = set()
+    for t0, d0, ton in ((0.0, 1.0, 0.001), (0.0, 0.0006, 0.001), (1000.0, 0.01, 0.001), (0.5, 0.004, 0.0005)):
+        gk = g(delta=d0)
+        if not gk.admit_packet(t0, ton):
+            raise ValueError("probe packet not admitted")
+        tgo = gk._t_go
+        tau = _open_threshold(gk, t0, tgo + 1.0)
+        if tau == tgo:
+            kinds.add(Fraction(0))
+        elif isinstance(decl, float) and tau in (tgo - decl, __import__("math").nextafter(tgo - decl, tgo + 1.0)) and tau < tgo:
+            kinds.add(Fraction(decl))
+        else:
+            kinds.add(Fraction(tgo) - Fraction(tau))
+    if len(kinds) != 1:
+        raise ValueError(f"is_open tolerance is not one constant: {sorted(float(k) for k in kinds)}")
+    return kinds.pop()
+
+
 @gen_lean.register(props=["C19"])
 def gen_dcc():
     import flexstack.management.dcc_reactive as r
@@ -63,9 +106,11 @@ def gen_dcc():
                             ("dDeltaMin", "delta_min"), ("dDeltaUpMax", "delta_up_max"), ("dDeltaDownMax", "delta_down_max")):
         body += f"def {lean_name} : Rat := {_dec(getattr(p, attr))}\n"
     g = a.GateKeeper
-    body += "-- GateKeeper class constants (exact rational value of each Python float)\n"
+    body += "-- GateKeeper interval constants (exact rational value of each Python float)\n"
     body += f"def gateMin : Rat := {lean_rat(float(g.GATE_OPEN_MIN_INTERVAL_S))}\n"
     body += f"def gateMax : Rat := {lean_rat(float(g.GATE_OPEN_MAX_INTERVAL_S))}\n"
-    body += f"def gateEps : Rat := {lean_rat(float(g._T_EPSILON))}\n"
+    eps = measured_gate_eps(a)
+    body += "-- tolerance is_open subtracts from t_go, measured on the class (0 = opens exactly at t_go)\n"
+    body += f"def gateEps : Rat := (({eps.numerator} : Rat) / {eps.denominator})\n"
     body += "end Generated.Dcc\n"
     write_if_changed("Dcc.lean", body)
